@@ -233,4 +233,43 @@ MUTANTS += [
     dict(prop='C11', name='trtb-red-not-marked', edits=[(TRTB, "                    self.current_bucket_peak = 0.0\n                    packet.color = \"red\"", "                    self.current_bucket_peak = 0.0\n                    packet.color = \"yellow\"")]),
     dict(prop='C11', name='trtb-shapes-against-cir-when-pir-set', edits=[(TRTB, "                        (packet.size - self.current_bucket_peak) * 8.0 / self.pir", "                        (packet.size - self.current_bucket_peak) * 8.0 / self.cir")]),
 ]
+
+SBASE = 'onl/scheduler/base.py'
+SPF = 'onl/scheduler/sp.py'
+WFQF = 'onl/scheduler/wfq.py'
+VCF = 'onl/scheduler/virtual_clock.py'
+DRRF = 'onl/scheduler/drr.py'
+RRF = 'onl/scheduler/rr.py'
+WRRF = 'onl/scheduler/wrr.py'
+MONF = 'onl/scheduler/monitor.py'
+MUTANTS += [
+    # ---- C12
+    dict(prop='C12', name='wakeup-token-only-when-nonempty', edits=[(SBASE, "        if self.total_packets == 0:\n            self.packets_available.put(True)", "        if self.total_packets == 1:\n            self.packets_available.put(True)")]),
+    dict(prop='C12', name='counters-decremented-before-transmission', edits=[(SBASE,
+         "        yield self.env.timeout(packet.size * 8.0 / self.rate)\n        flow_id = packet.flow_id\n        self.queue_count[flow_id] -= 1\n        self.queue_byte_size[flow_id] -= packet.size",
+         "        flow_id = packet.flow_id\n        self.queue_count[flow_id] -= 1\n        self.queue_byte_size[flow_id] -= packet.size\n        yield self.env.timeout(packet.size * 8.0 / self.rate)")]),
+    dict(prop='C12', name='no-transmission-time-for-small-packets', edits=[(SBASE, "        yield self.env.timeout(packet.size * 8.0 / self.rate)", "        yield self.env.timeout(packet.size * 8.0 / self.rate if packet.size > 64 else 0)")]),
+    dict(prop='C12', name='lifo-per-flow-store-in-rr', edits=[(RRF, "                    packet: Packet = yield store.get()", "                    if len(store.items) > 2:\n                        store.items.reverse()\n                    packet: Packet = yield store.get()")]),
+    dict(prop='C12', name='byte-counter-uses-fixed-size', edits=[(SBASE, "        self.queue_byte_size[flow_id] += packet.size", "        self.queue_byte_size[flow_id] += min(packet.size, 1500)")]),
+    dict(prop='C12', name='monitor-included-adds-again', edits=[(MONF, "                if not self.service_included:", "                if self.service_included and False or not self.service_included and self.scheduler.total_packets > 2:")]),
+    dict(prop='C12', name='wfq-class-count-forgets-decrement-when-shared', edits=[(WFQF, "            self.class_count[class_id] -= 1\n", "            self.class_count[class_id] -= 1 if class_id == packet.flow_id else 2\n")]),
+    # ---- C13
+    dict(prop='C13', name='sp-ascending-sort', edits=[(SPF, "key=lambda item: item[1], reverse=True)", "key=lambda item: item[1], reverse=False)")]),
+    dict(prop='C13', name='sp-no-rescan-again', edits=[(SPF, "                    # rescan from the highest priority after every transmission\n                    break\n", "")]),
+    dict(prop='C13', name='sp-rescan-only-when-top-nonempty', edits=[(SPF, "                    # rescan from the highest priority after every transmission\n                    break\n", "                    if self.stores[self.priorities[0][0]].size() > 0:\n                        break\n")]),
+    # ---- C14
+    dict(prop='C14', name='wfq-skip-stamp-for-first-again', edits=[(WFQF, "            self.update_vtime()\n        self.finish_times[class_id] = max(", "            self.update_vtime()\n        if len(self.active_set) > 0 or True and self.packets_received % 7 != 3:\n          self.finish_times[class_id] = max(")]),
+    dict(prop='C14', name='wfq-min-for-max', edits=[(WFQF, "        self.finish_times[class_id] = max(\n            self.finish_times[class_id], self.vtime\n        )", "        self.finish_times[class_id] = min(\n            self.finish_times[class_id], self.vtime\n        )")]),
+    dict(prop='C14', name='wfq-weight-sum-over-all-classes', edits=[(WFQF, "        for i in self.active_set:\n            weight_sum += self.weights[i]", "        for i in self.weights:\n            weight_sum += self.weights[i]")]),
+    dict(prop='C14', name='vc-tuple-key-without-tiebreak', edits=[(VCF, "PriorityItem((self.aux_vc[class_id], self.packets_received), packet)", "PriorityItem((self.aux_vc[class_id], -self.packets_received), packet)")]),
+    dict(prop='C14', name='vc-stamp-uses-size', edits=[(VCF, "        self.aux_vc[class_id] += self.vticks[class_id]\n", "        self.aux_vc[class_id] += self.vticks[class_id] * (2 if packet.size > 1000 else 1)\n")]),
+    # ---- C15
+    dict(prop='C15', name='drr-quantum-not-scaled-by-weight', edits=[(DRRF, "self.quantum[class_id] = self.MIN_QUANTUM * weight / min_weight", "self.quantum[class_id] = self.MIN_QUANTUM")]),
+    dict(prop='C15', name='drr-deficit-not-reset-on-empty', edits=[(DRRF, "                            if self.class_count[class_id] == 0:\n                                self.deficit[class_id] = 0.0", "                            pass")]),
+    dict(prop='C15', name='drr-deficit-not-debited-for-small', edits=[(DRRF, "                            self.deficit[class_id] -= packet.size", "                            self.deficit[class_id] -= packet.size if packet.size > 200 else 0")]),
+    dict(prop='C15', name='wrr-weight-plus-one', edits=[(WRRF, "                for _ in range(weight):", "                for _ in range(weight + 1):")]),
+    dict(prop='C15', name='rr-reversed-order', edits=[(RRF, "            for flow_id in self.flows:", "            for flow_id in reversed(self.flows):")]),
+    dict(prop='C15', name='rr-two-packets-per-visit-when-long-queue', edits=[(RRF, "                    yield env.process(self.send_packet(packet))", "                    yield env.process(self.send_packet(packet))\n                    if self.queue_count[flow_id] > 3:\n                        packet = yield store.get()\n                        yield env.process(self.send_packet(packet))")]),
+    dict(prop='C15', name='drr-sends-unaffordable-head', edits=[(DRRF, "                        if packet.size <= self.deficit[class_id]:\n                            yield env.process", "                        if packet.size <= self.deficit[class_id] + 100:\n                            yield env.process")]),
+]
 MUTANTS.sort(key=lambda m: (m['prop'], m['name']))
